@@ -159,6 +159,24 @@ func (hc *histClient) hello2(kind string, a int, useReal bool) (rec []byte, real
 		innerEdge(inner, a)
 		from, to = 0, 0
 	}
+	if kind == "hello2-ok" && a%4 == 2 {
+		// the second inner hello carries fewer extensions than the first (one the
+		// front has no interest in is gone): still the client's business
+		for i := len(inner.Exts) - 1; i >= 0; i-- {
+			switch inner.Exts[i].Type {
+			case echbox.ExtSNI, echbox.ExtALPN, echbox.ExtVersions, echbox.ExtECH, 51, 10, 13:
+				continue
+			}
+			if i >= from && i < to {
+				continue
+			}
+			inner.Exts = slices.Delete(inner.Exts, i, i+1)
+			if i < from {
+				from, to = from-1, to-1
+			}
+			break
+		}
+	}
 	if kind == "hello2-ok" && a%3 == 1 && to > from {
 		// the same hello, carried differently: nothing is compressed this time
 		// (what was referenced in the outer hello before now sits in the inner one)
